@@ -34,6 +34,9 @@ def run(ctx):
     from . import c20
 
     ctx.each(c20.r20i, ctx, repo)  # 'improperly nested cascades' are among the documented rules a loader must refuse
+    from . import c16
+
+    ctx.each(c16.pop_matrix_rows_rule, ctx, repo, "R18g")  # the blank databook the library writes for an accepted framework reads back: the tables of a connection sheet do not overlap
 
 
 # ---------------------------------------------------------------------------------------------- R18a
